@@ -123,6 +123,19 @@ CLAIMED = {
    note="Don't-cares: with_defaults across exclusive fields may raise, extra_args/parallelization_mode merging, ties between "
         "equal sizes/durations, combine_max result fields the property does not name.",
    technique="TLA+ resource algebra checked by TLC; universe export + history trace validation"),
+ "C06": dict(
+   category="model_checking", design_ref="6 C06",
+   text="MapFixed.tla specifies the selection of a raw fixed_indices key (CPython slice semantics, negative ints) and "
+        "ValidFixed (unknown axis, reduced axis, out-of-range int); TLC enumerates per scenario every sequence of 1-3 keys "
+        "(ints, negative ints, slices with None/negative bounds and steps) whose selections partition the independent axis, "
+        "in every order, plus the requests that must be rejected, and checks the partition and slice laws (MC_MapFixed). "
+        "Every history is executed for real (one map(fixed_indices=..., cleanup=False) per part, the completely stored "
+        "elements observed after each part, then a full run) and validated by TLC against MapRun (TraceMapRun): each part "
+        "calls precisely its selection, nothing twice, stored = what the model says (PartExact), the final run makes no "
+        "call and returns/reloads the whole denotation; invalid requests are rejected before any call.",
+   note="create_learners / adaptive learners are not driven in this round (the fixed_indices half of the property is "
+        "covered). Sequential execution; axis size 3; stored observed independently of pipefunc.",
+   technique="TLA+ selection semantics + run history model; TLC-enumerated partitions replayed; TLC trace validation"),
 }
 NOT_YET = "check not built yet in this round (specification module planned in DESIGN.md section 6)"
 
